@@ -119,6 +119,74 @@ static void check_axis(Ctx &c, const Dim &D, const std::vector<long> &sample_idx
         }
         if (vec_ok) c.check(vec.size() == ss.size(), "C07/overload/pair-vector/" + kind + "/length", "vector overload returned " + str(vec.size()) + " for " + str(ss.size()));
     }
+    // --- deprecated overloads (pairs, vectors, util:: scalars): "the index / pair, or OutOfBounds when there is none"
+    {
+        auto pstr = [](long lo, long hi) { return "(" + str(lo) + "," + str(hi) + ")"; };
+        size_t nd = std::min<size_t>(ss.size(), 12);
+        for (size_t k = 0; k < nd; k++) {
+            PairIdx want = oracle_pair(a, ss[k], es[k], RangeMatch::Inclusive);
+            long ws = oracle_index(a, ss[k], PositionMatch::GreaterOrEqual), we = oracle_index(a, es[k], PositionMatch::LessOrEqual);
+            std::string got = "?"; bool judged = true;
+            if (a.kind == Axis::Sampled) {
+                c.op("indexOf-deprecated pair sampled");
+                try { auto g = D.sd.indexOf(ss[k], es[k]); got = pstr((long)g.first, (long)g.second); } catch (OutOfBounds &) { got = "oob"; } catch (std::exception &e) { got = std::string("exc:") + e.what(); }
+                c.check(got == (want.valid ? pstr(want.lo, want.hi) : std::string("oob")), "C07/overload/deprecated-pair/sampled", [&] { return a.describe() + " start=" + pos_str(ss[k]) + " end=" + pos_str(es[k]) + " got=" + got + " oracle=" + (want.valid ? pstr(want.lo, want.hi) : "oob"); });
+            } else if (a.kind == Axis::Range) {
+                // the deprecated range pair does not test the order of the two indices: judged where the oracle has both ends
+                c.op("indexOf-deprecated pair range");
+                try { auto g = D.rd.indexOf(ss[k], es[k]); got = pstr((long)g.first, (long)g.second); } catch (OutOfBounds &) { got = "oob"; } catch (std::exception &e) { got = std::string("exc:") + e.what(); }
+                std::string w = (ws < 0 || we < 0) ? std::string("oob") : pstr(ws, we); (void)judged;
+                c.check(got == w, "C07/overload/deprecated-pair/range", [&] { return a.describe() + " start=" + pos_str(ss[k]) + " end=" + pos_str(es[k]) + " got=" + got + " oracle=" + w; });
+            }
+        }
+        // deprecated vectors: sampled (Inclusive, all-or-OutOfBounds), range (strict: all-or-OutOfBounds; lenient: the valid ones in order)
+        for (int rep = 0; rep < 4; rep++) {
+            size_t n = 1 + r.u(5); std::vector<double> vs, ve; std::vector<PairIdx> wi, we2; bool all = true;
+            RangeMatch m = r.chance(0.5) ? RangeMatch::Inclusive : RangeMatch::Exclusive;
+            for (size_t k = 0; k < n; k++) { size_t j = r.u(ss.size()); vs.push_back(ss[j]); ve.push_back(es[j]); }
+            std::string wantI, wantM, wantLen;
+            for (size_t k = 0; k < n; k++) { PairIdx wI = oracle_pair(a, vs[k], ve[k], RangeMatch::Inclusive), wM = oracle_pair(a, vs[k], ve[k], m); wi.push_back(wI); we2.push_back(wM); if (!wI.valid) all = false; }
+            auto render = [&](const std::vector<std::pair<ndsize_t, ndsize_t>> &v) { std::string o; for (auto &x : v) o += pstr((long)x.first, (long)x.second); return o; };
+            if (a.kind == Axis::Sampled) {
+                for (auto &w : wi) wantI += w.valid ? pstr(w.lo, w.hi) : "";
+                std::string got;
+                c.op("indexOf-deprecated vector sampled");
+                try { got = render(D.sd.indexOf(vs, ve)); } catch (OutOfBounds &) { got = "oob"; } catch (std::exception &e) { got = std::string("exc:") + e.what(); }
+                c.check(got == (all ? wantI : std::string("oob")), "C07/overload/deprecated-vector/sampled", [&] { return a.describe() + " n=" + str(n) + " got=" + got + " oracle=" + (all ? wantI : "oob"); });
+                c.op("positionToIndex-deprecated vector sampled");
+                try { got = render(util::positionToIndex(vs, ve, std::vector<std::string>(n, "none"), D.sd)); } catch (OutOfBounds &) { got = "oob"; } catch (std::exception &e) { got = std::string("exc:") + e.what(); }
+                c.check(got == (all ? wantI : std::string("oob")), "C07/overload/deprecated-util-vector/sampled", [&] { return a.describe() + " n=" + str(n) + " got=" + got + " oracle=" + (all ? wantI : "oob"); });
+            } else if (a.kind == Axis::Range) {
+                bool allM = true; for (auto &w : we2) { wantM += w.valid ? pstr(w.lo, w.hi) : ""; if (!w.valid) allM = false; }
+                for (bool strict : {true, false}) {
+                    std::string got;
+                    c.op(std::string("indexOf-deprecated vector range ") + (strict ? "strict" : "lenient"));
+                    try { got = render(D.rd.indexOf(vs, ve, strict, m)); } catch (OutOfBounds &) { got = "oob"; } catch (std::exception &e) { got = std::string("exc:") + e.what(); }
+                    std::string w = (strict && !allM) ? std::string("oob") : wantM;
+                    c.check(got == w, std::string("C07/overload/deprecated-vector/range/") + (strict ? "strict" : "lenient"), [&] { return a.describe() + " n=" + str(n) + " " + rm_name(m) + " got=" + got + " oracle=" + w; });
+                }
+                for (auto &w : wi) wantI += w.valid ? pstr(w.lo, w.hi) : "";
+                std::string got;
+                c.op("positionToIndex-deprecated vector range");
+                try { got = render(util::positionToIndex(vs, ve, std::vector<std::string>(n, "none"), D.rd)); } catch (OutOfBounds &) { got = "oob"; } catch (std::exception &e) { got = std::string("exc:") + e.what(); }
+                c.check(got == (all ? wantI : std::string("oob")), "C07/overload/deprecated-util-vector/range", [&] { return a.describe() + " n=" + str(n) + " got=" + got + " oracle=" + (all ? wantI : "oob"); });
+            } else if (a.kind == Axis::Set) {
+                for (auto &w : wi) wantI += w.valid ? pstr(w.lo, w.hi) : "";
+                std::string got;
+                c.op("positionToIndex-deprecated vector set");
+                try { got = render(util::positionToIndex(vs, ve, std::vector<std::string>(n, "none"), D.st)); } catch (OutOfBounds &) { got = "oob"; } catch (std::exception &e) { got = std::string("exc:") + e.what(); }
+                c.check(got == (all ? wantI : std::string("oob")), "C07/overload/deprecated-util-vector/set", [&] { return a.describe() + " n=" + str(n) + " got=" + got + " oracle=" + (all ? wantI : "oob"); });
+            }
+        }
+        // deprecated util:: scalars: GreaterOrEqual or OutOfBounds
+        for (int k = 0; k < 12; k++) {
+            double p = ps[r.u(ps.size())].p; long want = oracle_index(a, p, PositionMatch::GreaterOrEqual), g = -2;
+            if (a.kind == Axis::Frame) break;
+            c.op("positionToIndex-deprecated scalar " + kind);
+            try { g = a.kind == Axis::Sampled ? (long)util::positionToIndex(p, "none", D.sd) : a.kind == Axis::Range ? (long)util::positionToIndex(p, "none", D.rd) : (long)util::positionToIndex(p, "none", D.st); } catch (OutOfBounds &) { g = -1; } catch (std::exception &) { g = -3; }
+            c.check(g == want, "C07/overload/deprecated-util-scalar/" + kind, [&] { return a.describe() + " p=" + pos_str(p) + " got=" + str(g) + " oracle=" + str(want); });
+        }
+    }
     // --- vector overload with a unit per entry (the axis unit, a prefix-scaled unit, or "none"): every entry must convert like the scalar overload does
     if (with_units && !a.unit.empty() && (a.kind == Axis::Sampled || a.kind == Axis::Range)) {
         std::string base = a.unit.substr(a.unit.size() - 1); static const char *pre[] = {"", "m", "k", "u"};
